@@ -34,6 +34,7 @@ func (l IntegerLiteral) Value() int {
 
 type StringLiteral struct {
 	value string
+	isNil bool
 }
 
 func (l StringLiteral) StatementType() StatementType {
